@@ -16,7 +16,16 @@ Inductive ccase :=
    exception raised by schedule); allocs = JobAllocation.target after each pass *)
 | CSched (ts : list target) (fs : list (list rulecfg)) (job : job_inputs)
          (busy : list (list (string * option string)))
-         (order : res (list N)) (allocs : list (option N)).
+         (order : res (list N)) (allocs : list (option N))
+(* the SAME filter objects (one per element of fs) evaluated on a sequence of jobs: each call = (step name,
+   inputs, indices of the declared targets that make up this job's binding); obs per call *)
+| CFilterSeq (ts : list target) (fs : list (list rulecfg))
+             (calls : list (string * job_inputs * list N)) (obs : list (res (list N)))
+(* several jobs scheduled one after the other through one scheduler (hence the same cached filter objects);
+   busy0 = locations occupied from the start; every allocated job keeps its location (one slot each);
+   obs per job = exception of schedule() or the allocation after the scheduler went quiescent *)
+| CSchedSeq (ts : list target) (fs : list (list rulecfg)) (busy0 : list (string * option string))
+            (jobs : list job_inputs) (obs : list (res (option N))).
 
 Definition ferr_eqb (a b : ferr) : bool :=
   match a, b with
@@ -37,6 +46,23 @@ Definition res_map {A B} (f : A -> B) (a : res A) : res B :=
 Definition host_of (busy : list (string * option string)) (t : target) : bool :=
   negb (existsb (fun l => String.eqb (fst l) (t_dep t) && srv_eqb (snd l) (t_srv t)) busy).
 
+Definition select (ts : list target) (sel : list N) : list target :=
+  flat_map (fun i => filter (fun t => N.eqb (t_idx t) i) ts) sel.
+
+Definition mk_state (f : list rulecfg) : fstate := {| f_rules := map mk_rule f; f_seen := [] |}.
+
+Fixpoint sched_seq (rules : list (list rule)) (ts : list target) (busy : list (string * option string))
+         (jobs : list job_inputs) : list (res (option N)) :=
+  match jobs with
+  | [] => []
+  | j :: js =>
+      match schedule rules j ts [host_of busy] with
+      | Err e => Err e :: sched_seq rules ts busy js
+      | Ok (Some t :: _) => Ok (Some (t_idx t)) :: sched_seq rules ts (busy ++ [(t_dep t, t_srv t)]) js
+      | Ok _ => Ok None :: sched_seq rules ts busy js
+      end
+  end.
+
 Definition check_case (c : ccase) : bool :=
   match c with
   | CFilter ts fs job obs =>
@@ -48,4 +74,12 @@ Definition check_case (c : ccase) : bool :=
          | Ok tr => list_eqb (opt_eqb N.eqb) (map (option_map t_idx) tr) allocs
          | Err _ => match allocs with [] => true | _ => false end
          end
+  | CFilterSeq ts fs calls obs =>
+      list_eqb (res_eqb (list_eqb N.eqb))
+        (map (res_map (map t_idx))
+             (run_calls (map mk_state fs)
+                        (map (fun c => match c with (st, job, sel) => Build_call st job (select ts sel) end) calls)))
+        obs
+  | CSchedSeq ts fs busy0 jobs obs =>
+      list_eqb (res_eqb (opt_eqb N.eqb)) (sched_seq (map (map mk_rule) fs) ts busy0 jobs) obs
   end.
